@@ -171,6 +171,10 @@ def run(ctx: Ctx):
         case, impl = rig.gen_cycles_and_run(rng2)
         cases.append((f"cycles:{k}", case))
         pre[f"cycles:{k}"] = impl
+    for k in range(ctx.scale(30, 300)):
+        case, impl = rig.gen_backups_and_run(rng2)
+        cases.append((f"backups:{k}", case))
+        pre[f"backups:{k}"] = impl
     for k in range(ctx.scale(50, 500)):
         case, impl = rig.gen_fixrace_and_run(rng2)
         cases.append((f"fixrace:{k}", case))
@@ -217,6 +221,9 @@ def run(ctx: Ctx):
                 blocks[int(w[1])] = w[2] == "1"
             if w[0] in ("backup", "restore") and prev:
                 ctx.count(f"branch:{w[0]}:" + _transfer_branch(w[0], prev, blocks))
+            if w[0] == "backup" and prev:
+                # file health at the backup / copy already stored / outcome
+                ctx.count("backup:file=" + prev.split()[0][4:].split(",")[3] + ":stored-before=" + prev.split()[1][3:].split(",")[2] + ":" + m.split()[0])
             if w[0] in ("backup", "restore", "tick") and "0" in w[1:]:
                 ctx.count(f"saturated:{w[0]}:" + "".join(w[1:]))
             if w[0] == "adm":
